@@ -40,6 +40,10 @@ pub struct Step {
 pub struct Case {
     pub targets: Vec<Target>,
     pub steps: Vec<Step>,
+    /// one target (index) is written with native attributes plus an offset computed from an element that comes last in
+    /// the document (height given): it is laid out only after the containers have been tried once
+    #[serde(default)]
+    pub pending: Option<(usize, f64)>,
 }
 
 fn target_xml(i: usize, t: &Target) -> Option<XEl> {
@@ -76,6 +80,22 @@ fn margin_txt(m: &[M]) -> String {
 
 pub fn case_xml(c: &Case) -> String {
     let mut els: Vec<XEl> = c.targets.iter().enumerate().filter_map(|(i, t)| target_xml(i, t)).collect();
+    let mut late: Option<XEl> = None;
+    if let Some((idx, h)) = c.pending {
+        let id = format!("t{idx}");
+        let native = match c.targets.get(idx) {
+            Some(Target::Rect([x, y, w, hh])) => Some(XEl::new("rect").a("id", id.clone()).a("x", num(*x)).a("y", num(*y)).a("width", num(*w)).a("height", num(*hh))),
+            Some(Target::Circle(cx, cy, r)) => Some(XEl::new("circle").a("id", id.clone()).a("cx", num(*cx)).a("cy", num(*cy)).a("r", num(*r))),
+            Some(Target::Ellipse(cx, cy, rx, ry)) => Some(XEl::new("ellipse").a("id", id.clone()).a("cx", num(*cx)).a("cy", num(*cy)).a("rx", num(*rx)).a("ry", num(*ry))),
+            _ => None,
+        };
+        if let Some(e) = native {
+            if let Some(slot) = els.iter_mut().find(|e| e.get("id") == Some(id.as_str())) {
+                *slot = e.a(if idx % 2 == 0 { "dy" } else { "dx" }, "{{#late~h}}");
+                late = Some(XEl::new("rect").a("id", "late").a("xy", "300 300").a("wh", format!("3 {}", num(h))));
+            }
+        }
+    }
     for (k, s) in c.steps.iter().enumerate() {
         let mut e = XEl::new(&s.container).a("id", format!("s{k}"));
         e.set(if s.surround { "surround" } else { "inside" }, s.refs.iter().map(|r| format!("#{}", ref_id(c, *r))).collect::<Vec<_>>().join(" "));
@@ -84,6 +104,7 @@ pub fn case_xml(c: &Case) -> String {
         }
         els.push(e);
     }
+    els.extend(late);
     gen::svg_root(els).to_xml()
 }
 
@@ -114,8 +135,9 @@ fn margin() -> impl Strategy<Value = Vec<M>> {
 }
 
 fn fam_containment(_t: Tier) -> BoxedStrategy<Case> {
-    (vec(target(), 1..6), vec((0u8..3, any::<bool>(), vec(any::<u8>(), 1..5), margin()), 1..4))
-        .prop_map(|(mut targets, steps)| {
+    (vec(target(), 1..6), vec((0u8..3, any::<bool>(), vec(any::<u8>(), 1..5), margin()), 1..4), prop::option::weighted(0.25, (any::<u8>(), gen::nice_pos(12))))
+        .prop_map(|(mut targets, steps, pend)| {
+            let pending = pend.map(|(i, h)| ((i as usize * targets.len()) >> 8, h.max(1.0)));
             let mut out_steps: Vec<Step> = Vec::new();
             for (cont, surround, refs, margin) in steps {
                 let n = targets.len();
@@ -135,7 +157,7 @@ fn fam_containment(_t: Tier) -> BoxedStrategy<Case> {
                 // later steps may refer to this result
                 targets.push(Target::Earlier(out_steps.len() - 1));
             }
-            Case { targets, steps: out_steps }
+            Case { targets, steps: out_steps, pending }
         })
         .prop_filter("at least one step", |c| !c.steps.is_empty())
         .boxed()
